@@ -12,6 +12,7 @@ def main(argv=None) -> int:
     ap.add_argument("--replay")
     ap.add_argument("--digests", type=int)
     ap.add_argument("--workers", type=int)
+    ap.add_argument("--reverse", action="store_true")
     ap.add_argument("--seed", type=int)
     args = ap.parse_args(argv)
     from . import runner
@@ -19,5 +20,5 @@ def main(argv=None) -> int:
     if args.replay:
         return runner.replay(args.replay)
     if args.digests is not None:
-        return runner.digests_cmd(args.property, args.digests, seed)
+        return runner.digests_cmd(args.property, args.digests, seed, args.reverse)
     return runner.check(args.property, args.tier, seed, args.workers)
